@@ -40,7 +40,8 @@ REQUIRED = [_P + n for n in [
     "C03_offered_minimum_represented", "C03_ts_minima_represented", "C03_standard_similarity",
     "C03_both_lookups_first_stores_twice", "C03_symmetry_needed",
 ]] + ["TopSearch.Props.C03Order." + n for n in
-      ("reps_length_le", "representatives_same_size", "order_matters_without_transitivity")]
+      ("reps_length_le", "representatives_same_size", "order_matters_without_transitivity", "fold_nodes_subset",
+       "stored_count_order_independent")]
 RULE = ("cases = (network state, offer) transitions compared model-vs-implementation after the offer "
         "(test_new_minimum / test_new_ts / add_network / direct test_same and is_new_* queries); a case is "
         "non-trivial when the network is non-empty, i.e. the offer is decided by at least one comparison; "
